@@ -83,7 +83,7 @@ class Harmonics:
     tol = 1e-10
 
     def shapes(self, tier):
-        return [dict(l=l) for l in range(0, 7 if tier == "quick" else 11)]
+        return [dict(l=l) for l in range(0, 11)]  # the whole finite space of the property (l = 10 has two-digit labels)
 
     def run(self, shape, M):
         sph = M.mods["gbasis.spherical"]
@@ -186,9 +186,9 @@ class Conventions:
         out.append(dict(l=3, what="cart-transpositions"))
         out.append(dict(l=3, what="label-random", n=20 if tier == "quick" else 200))
         out.append(dict(l=3, what="cart-random", n=20 if tier == "quick" else 1000))
-        for l in (4, 5) + ((6, 8, 10) if tier == "thorough" else ()):
-            out.append(dict(l=l, what="cart-random", n=5))
-            out.append(dict(l=l, what="label-random", n=5))
+        for l in (4, 5, 10) + ((6, 8) if tier == "thorough" else ()):
+            out.append(dict(l=l, what="cart-random", n=5 if (l < 10 or tier == "thorough") else 2))
+            out.append(dict(l=l, what="label-random", n=5 if (l < 10 or tier == "thorough") else 2))
         out.append(dict(l=2, what="rejects"))
         return out
 
